@@ -167,3 +167,26 @@ pub fn hm_into_vec<V>(m: HashMap<String, V>) -> (r: Vec<(String, V)>)
 pub fn string_from_str(s: &str) -> (r: String)
     ensures r@ == s@
 { String::from(s) }
+
+// class S: HashMap::into_iter().map(f).collect::<HashMap<_,_>>() -- f applied to every entry exactly once
+#[verifier::external_body]
+pub fn hm_map_collect<K: Eq + std::hash::Hash, V, F: FnMut((K, V)) -> (K, V)>(m: HashMap<K, V>, f: F) -> (r: HashMap<K, V>)
+    requires forall |k: K| #[trigger] m@.contains_key(k) ==> f.requires(((k, m@[k]),))
+    ensures
+        // every result entry is the image of an input entry, every input entry has an image, keys as returned by f
+        forall |k2: K| #[trigger] r@.contains_key(k2) ==> exists |k: K| m@.contains_key(k) && f.ensures(((k, m@[k]),), (k2, r@[k2])),
+        forall |k: K| #[trigger] m@.contains_key(k) ==> exists |k2: K| r@.contains_key(k2) && f.ensures(((k, m@[k]),), (k2, r@[k2])),
+{ m.into_iter().map(f).collect() }
+
+// class S: Vec::sort_by_key(f) with a (usize, usize) key: stable sort = a permutation that is ascending in the key
+pub open spec fn key_le(a: (usize, usize), b: (usize, usize)) -> bool { a.0 < b.0 || (a.0 == b.0 && a.1 <= b.1) }
+#[verifier::external_body]
+pub fn vec_sort_by_key2<T, F: Fn(&T) -> (usize, usize)>(v: &mut Vec<T>, f: F, Ghost(key): Ghost<spec_fn(T) -> (usize, usize)>)
+    requires
+        forall |x: &T| #[trigger] f.requires((x,)),
+        forall |x: &T, k: (usize, usize)| #[trigger] f.ensures((x,), k) ==> k == key(*x),
+    ensures
+        final(v)@.to_multiset() == old(v)@.to_multiset(),
+        final(v)@.len() == old(v)@.len(),
+        forall |i: int, j: int| 0 <= i < j < final(v)@.len() ==> key_le(key(#[trigger] final(v)@[i]), key(#[trigger] final(v)@[j])),
+{ v.sort_by_key(f) }
